@@ -69,6 +69,7 @@ type PipeEnd struct {
 	ReadFault     bool // offer "read fails with an I/O error" when blocked reads are released by EOF
 	nwrites       int
 	nonblock      bool
+	ubuf          [][]byte // nonblocking mode: frames already read from the kernel into the messages' own buffer
 	closes        int
 	Injected      int // injected write failures so far
 	OnClose       func()
@@ -239,4 +240,4 @@ func (e *PipeEnd) Wire() []Frame { return e.p.wire }
 func (e *PipeEnd) Closed() bool { return e.p.closed[e.side] }
 
 // Pending returns the number of undelivered frames towards this end.
-func (e *PipeEnd) Pending() int { return len(*e.inq()) }
+func (e *PipeEnd) Pending() int { return len(*e.inq()) + len(e.ubuf) }
